@@ -49,7 +49,7 @@ def variant_options(rng, schema, cid, force_dim=None):
         dims.append("extern_enums")
     if take("serde_path", 0.4):
         # the path is the consumer's choice: the crate itself, graphql_client's re-export, or a re-export of their own
-        o["serde_path"] = rng.choice(["graphql_client::_private::serde", "serde", "crate::%s::reexports::serde" % cid, "crate::%s::deps::serde_crate" % cid])
+        o["serde_path"] = ["graphql_client::_private::serde", "crate::%s::reexports::serde" % cid, "serde", "crate::%s::deps::serde_crate" % cid][sum(ord(ch) for ch in cid) % 4]
         dims.append("serde_path")
     return o, dims
 
